@@ -335,7 +335,10 @@ def referenced_names(stmts) -> dict[str, int]:
 
     def walk(e):
         if isinstance(e, list):
-            if e and e[0] == "var":
+            if e and isinstance(e[0], list):
+                for x in e:
+                    walk(x)
+            elif e and e[0] == "var":
                 cnt[e[1]] = cnt.get(e[1], 0) + 1
             elif e and e[0] in ("projt", "siglitt"):
                 # .type access does not consume the signal's value
